@@ -863,7 +863,8 @@ spifconf_parse_line(FILE * fp, spif_charptr_t buff)
     ASSERT(buff != NULL);
 
     if (!(*buff) || *buff == '\n' || *buff == '#' || *buff == '<') {
-        SPIFCONF_PARSE_RET();
+        /* Nothing has been pushed for this line yet, so there is nothing to pop. */
+        return;
     }
     if (!fp) {
         file_push(NULL, (spif_charptr_t) "<argv>", NULL, 0, 0);
@@ -883,21 +884,21 @@ spifconf_parse_line(FILE * fp, spif_charptr_t buff)
       case '%':
           if (!BEG_STRCASECMP(spiftool_get_pword(1, buff + 1), "include ")) {
               spif_charptr_t path;
-              FILE *fp;
+              FILE *inc_fp;
 
               spifconf_shell_expand((spif_charptr_t) buff);
               path = spiftool_get_word(2, buff + 1);
-              if (!(fp = spifconf_open_file(path))) {
+              if (!(inc_fp = spifconf_open_file(path))) {
                   libast_print_error("Parsing file %s, line %lu:  Unable to locate %%included config file %s (%s), continuing\n", file_peek_path(),
                               file_peek_line(), path, strerror(errno));
               } else {
-                  file_push(fp, path, NULL, 1, 0);
+                  file_push(inc_fp, path, NULL, 1, 0);
               }
           } else if (!BEG_STRCASECMP(spiftool_get_pword(1, buff + 1), "preproc ")) {
               spif_char_t cmd[PATH_MAX], fname[PATH_MAX];
               spif_charptr_t outfile;
               int fd;
-              FILE *fp;
+              FILE *pp_fp;
 
               if (file_peek_preproc()) {
                   SPIFCONF_PARSE_RET();
@@ -908,10 +909,10 @@ spifconf_parse_line(FILE * fp, spif_charptr_t buff)
               snprintf((char *) cmd, PATH_MAX, "%s < %s > %s",
                        spiftool_get_pword(2, buff), file_peek_path(), fname);
               system((char *) cmd);
-              fp = fdopen(fd, "rt");
-              if (fp) {
+              pp_fp = fdopen(fd, "rt");
+              if (pp_fp) {
                   fclose(file_peek_fp());
-                  file_poke_fp(fp);
+                  file_poke_fp(pp_fp);
                   file_poke_preproc(1);
                   file_poke_outfile(outfile);
               }
